@@ -281,3 +281,60 @@ func dataType2CommonType(t byte) common.DataType {
 		return common.NONE
 	}
 }
+
+// the write batch of one command is not visible to the reads of the same command, so a
+// member (field) given more than once would be counted as new (or deleted) once per
+// occurrence. The helpers below keep one occurrence per member.
+
+// dedupMembers keeps the first occurrence of every member
+func dedupMembers(args [][]byte) [][]byte {
+	if len(args) < 2 {
+		return args
+	}
+	seen := make(map[string]struct{}, len(args))
+	out := make([][]byte, 0, len(args))
+	for _, m := range args {
+		if _, ok := seen[string(m)]; ok {
+			continue
+		}
+		seen[string(m)] = struct{}{}
+		out = append(out, m)
+	}
+	return out
+}
+
+// dedupKVRecords keeps one record per field, the last value given wins (as in redis)
+func dedupKVRecords(args []common.KVRecord) []common.KVRecord {
+	if len(args) < 2 {
+		return args
+	}
+	pos := make(map[string]int, len(args))
+	out := make([]common.KVRecord, 0, len(args))
+	for _, r := range args {
+		if i, ok := pos[string(r.Key)]; ok {
+			out[i] = r
+			continue
+		}
+		pos[string(r.Key)] = len(out)
+		out = append(out, r)
+	}
+	return out
+}
+
+// dedupScorePairs keeps one pair per member, the last score given wins (as in redis)
+func dedupScorePairs(args []common.ScorePair) []common.ScorePair {
+	if len(args) < 2 {
+		return args
+	}
+	pos := make(map[string]int, len(args))
+	out := make([]common.ScorePair, 0, len(args))
+	for _, r := range args {
+		if i, ok := pos[string(r.Member)]; ok {
+			out[i] = r
+			continue
+		}
+		pos[string(r.Member)] = len(out)
+		out = append(out, r)
+	}
+	return out
+}
